@@ -316,6 +316,7 @@ def run(rep, tier, seed):
                 if d:
                     rep.violation("C09:%s:document-differs:%s" % (name, d[0]), "at %s: original %r, rewritten %r" % (d[0], d[1], d[2]), vcase)
     alias_pass(rep, rng, quick)
+    nesting_and_names_pass(rep, rng, quick)
     rep.sample({"original": groups[0][1][:700], "rewritten": groups[0][2][2][1][:900], "renaming": dict(list(groups[0][2][2][2].items())[:8])})
     rep.rule = ("generated models (30% with an injected semantic error) re-rendered with redundant parentheses around "
                 "operands, blanks / newlines / comments / line continuations between tokens and the other spelling of "
@@ -324,6 +325,79 @@ def run(rep, tier, seed):
                 "renaming applied, supported methods and the whole canonical document compared; distinct = distinct "
                 "rewritten texts")
     rep.extra["models_with_diagnostics"] = n_rej
+
+
+def nesting_and_names_pass(rep, rng, quick):
+    """(a) Redundant parentheses around every operand of right-nested expressions of moderate depth (inline-if chains,
+    nested indices, nested calls, nested quantifiers): each pair of parentheses costs parser stack while it is open but
+    must not change the result.  (b) Blanks, tabs and line breaks around the identifier inside <name> elements."""
+    from .. import xmlgen
+    import xml.etree.ElementTree as ET
+    shapes = []
+    for n in (3, 6, 9, 12, 15):
+        shapes.append(("inline-if-chain/%d" % n, "v = " + " ".join("v > %d ? %d :" % (i, i) for i in range(n)) + " 0",
+                       "v = " + "".join("((v) > (%d)) ? (%d) : (" % (i, i) for i in range(n)) + "(0)" + ")" * n, "assignment"))
+        shapes.append(("nested-index/%d" % n, "a[" * n + "0" + "]" * n + " >= 0", "(a)[(" * n + "(0)" + ")]" * n + " >= (0)", "guard"))
+        shapes.append(("nested-call/%d" % n, "v = " + "f(" * n + "1" + ")" * n, "v = (" + "f((" * n + "1" + "))" * n + ")", "assignment"))
+    for n in (2, 3, 4, 5, 6):
+        shapes.append(("nested-forall/%d" % n, "".join("forall (q%d : int[0,1]) " % i for i in range(n)) + "a[q0] >= 0",
+                       "".join("(forall (q%d : int[0,1]) " % i for i in range(n)) + "((a[(q0)]) >= (0))" + ")" * n, "guard"))
+        shapes.append(("nested-sum/%d" % n, "v = " + "".join("sum (q%d : int[0,1]) " % i for i in range(n)) + "q0",
+                       "v = (" + "".join("(sum (q%d : int[0,1]) " % i for i in range(n)) + "(q0)" + ")" * n + ")", "assignment"))
+    decl = "int v; int a[2]; int f(int p) { return p; }"
+    cases = []
+    for name, plain, par, kind in shapes:
+        for where in ("label", "function"):
+            def mk(text):
+                if where == "label":
+                    return xmlgen.simple_model(decl=decl, edges=[("id0", "id0", [(kind, text)])])
+                body = ("v = (%s) ? 1 : 0;" % text) if kind == "guard" else text + ";"
+                return xmlgen.simple_model(decl=decl + " void t() { %s }" % body)
+            cases.append((name, where, Case("np%d" % len(cases), [Step("parse_doc", 0, "xml_buffer", 1, 1, mk(plain)),
+                                                                  Step("parse_doc", 1, "xml_buffer", 1, 1, mk(par))], timeout=60)))
+    res = run_cases([c for _, _, c in cases])
+    for name, where, c in cases:
+        r = res[c.id]
+        if r["status"] != "ok":
+            rep.crash(r, c)
+            continue
+        oa, ob = observation(r["steps"][0]), observation(r["steps"][1])
+        rep.observe(("nesting", name, where))
+        if oa["errors"] != ob["errors"] or oa["exc"] != ob["exc"]:
+            rep.violation("C09:parentheses:diagnostics-differ:%s" % name.split("/")[0], "%s (%s): plain %s / %s, with redundant parentheses %s / %s" % (
+                name, where, oa["exc"], oa["errors"][:2], ob["exc"], ob["errors"][:2]), c)
+        elif oa["methods"] != ob["methods"]:
+            rep.violation("C09:parentheses:supported-methods-differ", "%s (%s)" % (name, where), c)
+        else:
+            d = deepdiff.first_diff(oa["doc"], ob["doc"])
+            if d:
+                rep.violation("C09:parentheses:document-differs:%s" % name.split("/")[0], "%s (%s): at %s: %r vs %r" % (name, where, d[0], d[1], d[2]), c)
+    # (b) whitespace inside <name> elements
+    mg = GM.ModelGen(rng, 3, 4, 5)
+    ncases = []
+    for i in range(150 if quick else 3000):
+        m = mg.model()
+        base = GM.render_xml(m, None)
+        pads = [" ", "\t", "\n", "\n  ", "  ", " \n\t ", "\r\n"]
+        padded = re.sub(r"(<name[^>]*>)([^<]+)(</name>)", lambda mo: mo.group(1) + rng.choice(pads + [""]) + mo.group(2) + rng.choice(pads + [""]) + mo.group(3), base)
+        if padded == base:
+            continue
+        ncases.append(Case("nm%d" % i, [Step("parse_doc", 0, "xml_buffer", 1, 1, base), Step("parse_doc", 1, "xml_buffer", 1, 1, padded)], timeout=60))
+    nres = run_cases(ncases)
+    for c in ncases:
+        r = nres[c.id]
+        if r["status"] != "ok":
+            rep.crash(r, c)
+            continue
+        oa, ob = observation(r["steps"][0]), observation(r["steps"][1])
+        rep.observe(("name-padding", c.steps[1].args[4]))
+        if (oa["exc"], oa["errors"], oa["warnings"], oa["methods"]) != (ob["exc"], ob["errors"], ob["warnings"], ob["methods"]):
+            rep.violation("C09:whitespace-in-name:diagnostics-differ", "plain %s %s; with blanks / line breaks around the names %s %s" % (
+                oa["exc"], oa["errors"][:2], ob["exc"], ob["errors"][:2]), c)
+        else:
+            d = deepdiff.first_diff(oa["doc"], ob["doc"])
+            if d:
+                rep.violation("C09:whitespace-in-name:document-differs", "at %s: %r vs %r" % (d[0], d[1], d[2]), c)
 
 
 ALIAS = {"and": "&&", "or": "||", "not": "!"}
